@@ -1,6 +1,7 @@
 /-
   GIV.Lemmas.TsRunCmds — facts about the concrete command table (GIV.Model.ScriptCmds):
-  no command other than `skip` ever ends in T.Skip, and no command other than `cmp` touches
+  no command other than `skip` ever ends in T.Skip (`exec`, `wait`, `kill` with their background
+  bookkeeping included), and no command other than `cmp` touches
   `ts.scriptUpdates`; no command touches `ts.scriptFiles`.
 -/
 import GIV.Model.ScriptCmds
@@ -193,18 +194,41 @@ theorem tame_stdin (failed : Bool) (s : St) (neg : Bool) (args : List Bytes) : T
 
 theorem tame_wait (failed : Bool) (s : St) (neg : Bool) (args : List Bytes) : Tame s (cmdWait failed s neg args) := by
   unfold cmdWait
+  repeat' split
+  all_goals first | exact tame_fatal s | exact tame_unm s | (simp [Tame, okay]; done)
+
+theorem tame_kill (failed : Bool) (s : St) (neg : Bool) (args : List Bytes) : Tame s (cmdKill failed s neg args) := by
+  unfold cmdKill
+  repeat' split
+  all_goals first | exact tame_fatal s | exact tame_unm s | (simp [Tame, okay]; done)
+
+theorem tame_execBg (s : St) (neg : Bool) (prog : Bytes) (hargs : List Bytes) (name : Bytes) :
+    Tame s (execBg s neg prog hargs name) := by
+  unfold execBg
+  repeat' split
+  all_goals first | exact tame_fatal s | exact tame_unm s | (simp [Tame, okay]; done)
+
+theorem tame_execFg (s : St) (neg : Bool) (prog : Bytes) (hargs : List Bytes) :
+    Tame s (execFg s neg prog hargs) := by
+  unfold execFg
+  repeat' split
+  all_goals first | exact tame_fatal s | exact tame_unm s | (simp [Tame, okay]; done)
+
+theorem tame_exec (failed : Bool) (s : St) (neg : Bool) (args : List Bytes) : Tame s (cmdExec failed s neg args) := by
+  unfold cmdExec
   split
   · exact tame_fatal s
   · split
     · exact tame_fatal s
     · split
-      · exact tame_fatal s
-      · simp [Tame, okay]
-
-theorem tame_kill (failed : Bool) (s : St) (neg : Bool) (args : List Bytes) : Tame s (cmdKill failed s neg args) := by
-  unfold cmdKill
-  repeat' split
-  all_goals first | exact tame_fatal s | exact tame_okay s
+      · exact tame_unm s
+      · split
+        · split
+          · exact tame_fatal s
+          · split
+            · simp [Tame]
+            · exact tame_execBg ..
+        · exact tame_execFg ..
 
 theorem tame_unmodelled (failed : Bool) (s : St) (neg : Bool) (args : List Bytes) : Tame s (cmdUnmodelled failed s neg args) :=
   tame_unm s
@@ -243,6 +267,67 @@ theorem tameCmp_doCmdCmp (p : P) (s : St) (neg : Bool) (args : List Bytes) (env 
     | exact ho
     | exact ⟨Or.inl rfl, Or.inr ⟨_, _, rfl⟩, rfl⟩
 
+/-! ### background commands: what `waitBackground(true)` lets through -/
+
+/-- the status `waitAll` consults for one entry -/
+def bgStatus (interrupted : Bool) (b : Bg) : Option Bool :=
+  if interrupted then b.resultInterrupted else b.result
+
+/-- the entry's process ended, in a way that is determined, and as its line demands:
+success without `!`, failure with it -/
+def BgAsDemanded (interrupted : Bool) (b : Bg) : Prop :=
+  ∃ ok, bgStatus interrupted b = some ok ∧ ok ≠ b.neg
+
+/-- the checking loop runs to its end only if every entry ended as its line demands -/
+theorem waitAll_some_all (i : Bool) (bgs : List Bg) : ∀ (o e : Bytes) (r : Bytes × Bytes),
+    waitAll i true bgs o e = some (some r) → ∀ b ∈ bgs, BgAsDemanded i b := by
+  induction bgs with
+  | nil => intro o e r _ b hb; simp at hb
+  | cons x xs ih =>
+    intro o e r h b hb
+    simp only [waitAll, if_true] at h
+    split at h
+    · simp at h
+    · rename_i ok hok
+      split at h
+      · simp at h
+      · rename_i hne
+        rcases List.mem_cons.1 hb with rfl | hb
+        · exact ⟨ok, by simpa [bgStatus] using hok, by simpa using hne⟩
+        · exact ih _ _ r h b hb
+
+/-- … and what it returns then is the outputs joined in the order of `ts.background` -/
+theorem waitAll_some_outputs (i : Bool) (bgs : List Bg) : ∀ (o e : Bytes) (r : Bytes × Bytes),
+    waitAll i true bgs o e = some (some r) →
+    r = (o ++ (bgs.map (·.out)).flatten, e ++ (bgs.map (·.err)).flatten) := by
+  induction bgs with
+  | nil => intro o e r h; simp [waitAll] at h; simp [← h]
+  | cons x xs ih =>
+    intro o e r h
+    simp only [waitAll, if_true] at h
+    split at h
+    · simp at h
+    · split at h
+      · simp at h
+      · rw [ih _ _ r h]; simp [List.append_assoc]
+
+/-- the first entry that ended against its line (all earlier ones as demanded) makes the loop call Fatalf -/
+theorem waitAll_contradiction (i : Bool) (pre post : List Bg) (b : Bg)
+    (hpre : ∀ x ∈ pre, BgAsDemanded i x) (hb : bgStatus i b = some b.neg) : ∀ (o e : Bytes),
+    waitAll i true (pre ++ b :: post) o e = some none := by
+  induction pre with
+  | nil =>
+    intro o e
+    have : (if i = true then b.resultInterrupted else b.result) = some b.neg := by simpa [bgStatus] using hb
+    simp [waitAll, this]
+  | cons x xs ih =>
+    intro o e
+    obtain ⟨ok, h1, h2⟩ := hpre x (by simp)
+    have h1' : (if i = true then x.resultInterrupted else x.result) = some ok := by simpa [bgStatus] using h1
+    have h2' : (ok == x.neg) = false := by simpa using h2
+    simp only [List.cons_append, waitAll, if_true, h1', h2']
+    exact ih (fun y hy => hpre y (by simp [hy])) _ _
+
 /-! ### the tables -/
 
 theorem mem_of_lookup {α : Type} (t : List (Bytes × α)) (n : Bytes) (v : α) (h : t.lookup n = some v) : (n, v) ∈ t := by
@@ -274,7 +359,7 @@ theorem builtin_tame (p : P) (n : Bytes) (f : Cmd St) (h : (builtinTable p).look
   · exact absurd hn h2
   · exact tame_cp ..
   · exact tame_env ..
-  · exact tame_unmodelled ..
+  · exact tame_exec ..
   · exact tame_exists ..
   · exact tame_scriptMatch ..
   · exact tame_kill ..
@@ -323,7 +408,7 @@ theorem skip_updates (failed : Bool) (s : St) (neg : Bool) (args : List Bytes) :
     (cmdSkip failed s neg args).1.updates = s.updates ∧ (cmdSkip failed s neg args).1.scriptFiles = s.scriptFiles := by
   unfold cmdSkip
   repeat' split
-  all_goals simp [fatal]
+  all_goals simp [fatal, unm]
 
 theorem custom_tame (p : P) (n : Bytes) (f : Cmd St) (h : (customTable p).lookup n = some f) :
     ∀ failed s neg args, Tame s (f failed s neg args) := by
